@@ -979,10 +979,11 @@ func decimalText(v ssa.Value) (x ssa.Value, ok bool) {
 // executing an instruction accepted by stopInstr and without crossing an edge accepted by
 // stopEdge. Blocks that branch on a boolean merged in them are left in the direction the
 // value arriving from the predecessor decides (when it is a constant).
-func pathAvoiding(g *ssax.Graph, pred, from int, target, stopInstr func(ssa.Instruction) bool, stopEdge func(p, s int) bool) (ssa.Instruction, bool) {
+func pathAvoiding(g *ssax.Graph, pred, from int, target, stopInstr func(ssa.Instruction) bool, stopEdge func(p, s int, extra []ssax.Fact) bool) (ssa.Instruction, bool) {
 	type st struct{ pred, blk int }
 	seen := map[st]bool{}
 	work := []st{{pred, from}}
+	extras := map[st][]ssax.Fact{}
 	for len(work) > 0 {
 		cur := work[0]
 		work = work[1:]
@@ -990,7 +991,7 @@ func pathAvoiding(g *ssax.Graph, pred, from int, target, stopInstr func(ssa.Inst
 			continue
 		}
 		seen[cur] = true
-		if cur.pred >= 0 && stopEdge != nil && stopEdge(cur.pred, cur.blk) {
+		if cur.pred >= 0 && stopEdge != nil && stopEdge(cur.pred, cur.blk, extras[cur]) {
 			continue
 		}
 		blk := g.Fn.Blocks[cur.blk]
@@ -1025,6 +1026,18 @@ func pathAvoiding(g *ssax.Graph, pred, from int, target, stopInstr func(ssa.Inst
 							take = blk.Succs[0].Index
 						}
 						succs = []int{take}
+					} else {
+						// the merged flag has, on this way in, the value of a condition computed earlier: leaving
+						// by the true (false) edge means that condition was true (false)
+						in, inPos := stripNotB(ph.Edges[k], true)
+						for si, sb := range blk.Succs {
+							val := (si == 0) == pos
+							if !inPos {
+								val = !val
+							}
+							key := st{cur.blk, sb.Index}
+							extras[key] = append(extras[key], ssax.Fact{Cond: in, Val: val})
+						}
 					}
 				}
 			}
